@@ -72,7 +72,7 @@ def alts48(tier):
         org=['23952', '24000', '49152', 'top'],        # 'top' = no -o option: ORG defaults to 65536-length
         start=['begin+1', 'last'],
         stack=['end-1', 'end+0', 'end+1', 'end+2', 'end+3', 'end+4', 'end+14', 'begin+1', 'begin+2', 'begin+3', '65535'],
-        clear=['begin-1', '24999', '23952'],           # 23952 = the lowest usable address the man page gives for a 48K Spectrum
+        clear=['begin-1', '24999', '23952', '23972'],           # 23952 = the lowest usable address the man page gives for a 48K Spectrum
         begin=['org+1', 'mid'],
         end=['last', 'mid+1'],
         fmt=['pzx'],
@@ -160,7 +160,11 @@ def _resolve48(cfg):
     CLEAR = None if cfg['clear'] == 'none' else _rel(cfg['clear'], names)
     if CLEAR is not None:
         if CLEAR < 23952:
-            return None, 'CLEAR below 23952 (man page: lowest usable address on a 48K Spectrum)'
+            return None, 'CLEAR below 23952 (documented lowest usable address on a 48K Spectrum)'
+        if cfg['screen'] and CLEAR < 23972:
+            # commands.rst: "the lowest usable address ... on a bare 48K Spectrum is 23972 if a loading
+            # screen is used, or 23952 otherwise"
+            return None, 'CLEAR below 23972 with a loading screen (documented limit)'
         if CLEAR >= B:
             return None, 'CLEAR not below the program'
     plan = dict(machine='48', L=L, ORG=ORG, B=B, E=E, START=START, STACK=STACK, CLEAR=CLEAR, fmt=cfg['fmt'],
